@@ -1,29 +1,57 @@
 (* Properties_C06.v — C06: a suspend point never loses or duplicates a ready coroutine.
    Only statements; every proof is `exact <lemma of SuspendPointProofs>`.
-   Quantification: any op sequence (any length), any number of objects and handles, both modes. *)
+   Quantification: any op sequence (any length), any number of objects (suspend_point<void> and suspend_point<X>)
+   and handles, both modes; the awaiting coroutine's own handle may be inside the awaited list at any position. *)
 From Cocls Require Import Base BaseProofs SuspendPointDefs SuspendPointProofs.
 Local Open Scope Z_scope.
 
-(* handles handed in = handles resumed (+ popped) ⊎ handles still held by live objects or the ready queue *)
+(* handles handed in (+ the awaiter, once per await) = handles resumed ⊎ handles still held by live objects or the ready queue *)
 Theorem c06_conservation : forall coro ops e, wf_env e ->
   let r := run_from coro e ops in
-  Permutation (handed_run ops (fst r) ++ held e) (resumed_run (fst r) ++ held (snd r)).
+  Permutation (handed_run ops (fst r) ++ spush_run coro e ops ++ held e) (resumed_run (fst r) ++ held (snd r)).
 Proof. exact conservation. Qed.
 Print Assumptions c06_conservation.
 
-(* once every object is destroyed and the queue drained, each handed handle was resumed exactly once *)
+(* the same for the ready coroutines alone *)
+Theorem c06_conservation_ready : forall coro ops e, wf_env e ->
+  let r := run_from coro e ops in
+  Permutation (filter not_drv (handed_run ops (fst r) ++ held e)) (filter not_drv (resumed_run (fst r) ++ held (snd r))).
+Proof. exact conservation_ready. Qed.
+Print Assumptions c06_conservation_ready.
+
+(* once every object is destroyed and the queue drained, each ready coroutine was resumed exactly as often as handed in *)
+Theorem c06_resumed_as_often_as_handed : forall coro ops h,
+  let r := run_from coro env0 ops in
+  held (snd r) = [] -> h <> driver ->
+  count_z h (resumed_run (fst r)) = count_z h (handed_run ops (fst r)).
+Proof. exact resumed_as_often_as_handed. Qed.
+Print Assumptions c06_resumed_as_often_as_handed.
+
 Theorem c06_all_resumed_once : forall coro ops h,
   let r := run_from coro env0 ops in
-  held (snd r) = [] -> NoDup (handed_run ops (fst r)) -> In h (handed_run ops (fst r)) ->
+  held (snd r) = [] -> h <> driver -> count_z h (handed_run ops (fst r)) = 1%nat ->
   count_z h (resumed_run (fst r)) = 1%nat.
 Proof. exact resumed_exactly_once. Qed.
 Print Assumptions c06_all_resumed_once.
 
 Theorem c06_nothing_invented : forall coro ops h,
   let r := run_from coro env0 ops in
-  In h (resumed_run (fst r)) -> In h (handed_run ops (fst r)).
+  h <> driver -> In h (resumed_run (fst r)) -> In h (handed_run ops (fst r)).
 Proof. exact never_resumed_unless_handed. Qed.
 Print Assumptions c06_nothing_invented.
+
+(* the awaiting coroutine: continued exactly once per accepted co_await (own handle in the list or not, at any position,
+   after everything that ran in between), never resumed by any other op ... *)
+Theorem c06_awaiter_resumed_once : forall coro ops e, wf_env e -> drv_run_ok ops (fst (run_from coro e ops)).
+Proof. exact awaiter_once. Qed.
+Print Assumptions c06_awaiter_resumed_once.
+
+(* ... and never left behind in the ready queue while it runs (no later second resume); its handle is in at most one place *)
+Theorem c06_awaiter_not_left_queued : forall coro ops,
+  let e := snd (run_from coro env0 ops) in
+  ~ In driver (queue e) /\ (count_z driver (held e) <= 1)%nat.
+Proof. exact awaiter_not_left_queued. Qed.
+Print Assumptions c06_awaiter_not_left_queued.
 
 (* moved-from / merged-from / cleared / awaited objects are empty, and an empty object's destructor does nothing *)
 Theorem c06_source_emptied : forall coro e x o,
@@ -35,7 +63,7 @@ Print Assumptions c06_source_emptied.
 Theorem c06_emptied_resumes_nothing : forall coro e o s,
   wf_env e -> get (objs e) o = Some s -> cf s = 0 ->
   let r := step coro e (ODestroy o) in
-  o_res (snd r) = [] /\ o_cost (snd r) = (0, 0) /\ queue (fst r) = queue e.
+  o_st (snd r) = 0 /\ o_res (snd r) = [] /\ o_cost (snd r) = (0, 0) /\ queue (fst r) = queue e.
 Proof. exact emptied_resumes_nothing. Qed.
 Print Assumptions c06_emptied_resumes_nothing.
 
@@ -54,17 +82,40 @@ Theorem c06_capacity_sound : forall coro ops i s,
 Proof. exact capacity_sound. Qed.
 Print Assumptions c06_capacity_sound.
 
-(* the attached value is the constructor argument and no operation but an assignment changes it *)
-Theorem c06_typed_value : forall coro e x i s s',
-  wf_env e -> ~ assigns x i ->
-  get (objs e) i = Some s -> get (objs (fst (step coro e x))) i = Some s' -> val s' = val s.
-Proof. exact value_preserved. Qed.
+(* value clause: in every history, the value shown after each op / returned by each conversion / by each co_await is the
+   one the independent account `vstep` assigns: set only by a construction, replaced by `moved` only when the object is
+   the source of a move construction or move assignment, carried along by moves/swaps, untouched by everything else *)
+Theorem c06_typed_value : forall coro ops,
+  vals_ok [] ops (map encode_obs (fst (run_from coro env0 ops))) = true.
+Proof. exact values_as_supplied. Qed.
 Print Assumptions c06_typed_value.
 
-(* non-vacuity: a concrete run that crosses inline->heap, merges, pops and closes meets the hypotheses *)
+(* reads return the stored value and change nothing: any number of reads, at any point *)
+Theorem c06_read_changes_nothing : forall coro e o k s,
+  get (objs e) o = Some s -> typed s = true -> k = 0 \/ k = 1 ->
+  step coro e (ORead o k) = (e, ok_obs (sp_count s) (val s) (0, 0) []).
+Proof. exact read_changes_nothing. Qed.
+Print Assumptions c06_read_changes_nothing.
+
+(* the decidable trace property used on the implementation's output holds of every closed run of the model *)
+Theorem c06_oracle_sound : forall coro ops,
+  let r := run_from coro env0 (map decode ops) in
+  (forall i, get (objs (snd r)) i = None) -> queue (snd r) = [] ->
+  sp_oracle ops (sp_run coro ops) = true.
+Proof. exact oracle_sound. Qed.
+Print Assumptions c06_oracle_sound.
+
+(* non-vacuity: a concrete coroutine-mode run — typed object read twice, inline->heap, the awaiter's own handle in the
+   middle of the awaited list, something already queued, merge, swap, pop — is closed and meets the hypotheses *)
 Example c06_nonvacuous :
-  let ops := [ONewV 0 7; OAdd 0 1; OAdd 0 2; OAdd 0 3; OAdd 0 4; ONewH 1 5 8; OMerge 1 0; OPop 1; ODestroy 1; ODestroy 0] in
-  let r := run_from false env0 ops in
-  held (snd r) = [] /\ NoDup (handed_run ops (fst r)) /\ handed_run ops (fst r) = [1;2;3;4;5]
-  /\ resumed_run (fst r) = [4;5;1;2;3] /\ allocs_run (fst r) = 2.
-Proof. vm_compute. split; [reflexivity|]. split; [apply (proj1 (nodup_b_NoDup _)); reflexivity|]. repeat split; reflexivity. Qed.
+  let ops := [ONewV 0 7; ORead 0 0; ORead 0 1; OAdd 0 1; OAdd 0 2; OAddSelf 0; OAdd 0 3; OAdd 0 4;
+              ONewVoidH 1 5; OClear 1; OCreate 2 true 9 [6; 8]; OSwap 0 2; OAwaitL 2; OPop 0; OMerge 1 0;
+              ODestroy 0; ODestroy 1; ODestroy 2; OFlush] in
+  let r := run_from true env0 ops in
+  held (snd r) = [] /\ (forall i, get (objs (snd r)) i = None) /\
+  filter not_drv (handed_run ops (fst r)) = [1;2;3;4;5;6;8] /\
+  resumed_run (fst r) = [4;5;1;2;0;6;3;8;0] /\ allocs_run (fst r) = 2 /\
+  map o_val (firstn 3 (fst r)) = [7;7;7].
+Proof.
+  vm_compute. repeat split; try reflexivity. intros i. do 3 (destruct i as [|i]; [reflexivity|]). destruct i; reflexivity.
+Qed.
